@@ -30,6 +30,7 @@ type op struct {
 	ctx    world.NodeRef
 	own    bool
 	target int
+	parse  world.DocSpec
 	want   world.Norm
 	wantS  string
 	wantF  bool
@@ -50,6 +51,14 @@ type poolEntry struct {
 }
 
 var seedExprs = []string{"$v | //*", "$w | $v", "//*/ancestor::* | $v", "$v[1] | $w[last()]", "//*", "//node()/preceding-sibling::node()", "count($v | //@*)", "$v/.. | //text()", "//*[. = $v]", "($v | $w)[position() mod 2 = 1]", "//*/namespace::* | $w", "$w/descendant-or-self::node() | $v"}
+// every builtin with two different arguments, so that hidden per-function
+// state (caches, scratch buffers) is reached by concurrent, differing calls
+var builtinExprs = []string{"//*[lang('en')]", "count(//*[lang('de')])", "//*[lang('en-US')]", "//*[lang('fr')]", "string-length(string(/))", "string-length('abc')",
+	"normalize-space(' a  b ')", "normalize-space(string(/))", "translate('abc','ab','xy')", "translate(string(/),'a','b')", "concat('a','b',string(/))", "concat(name(/*),'x')",
+	"substring('abcdef',2,3)", "substring(string(/),1,4)", "substring-before('a-b','-')", "substring-after(string(/),'a')", "starts-with(name(/*),'a')", "contains(string(/),'b')",
+	"sum(//*)", "sum(//@*)", "floor(1.5)", "ceiling(count(//*) div 2)", "round(2.5)", "number('12')", "number(/)", "name(//*[last()])", "local-name(//@*)", "namespace-uri(/*)",
+	"count(//node())", "not(//*)", "//*[position() = last()]", "//*[last() - 1]", "string(//text())", "//*/namespace::*[name() = 'xml']", "//p:* | //q:*", "//*:a | //*:b"}
+
 var holdExprs = []string{"//*/ancestor::*", "//*", "//node()/preceding-sibling::node()", "//*[last()]/ancestor-or-self::*", "//@*", "//text()", "/*/*"}
 
 func raceLogTail() string {
@@ -146,17 +155,36 @@ func Run(t *simkit.Tape, o *simkit.Outcome, full bool) {
 	np := 2 + t.Draw(5)
 	for i := 0; i < np; i++ {
 		var pe poolEntry
-		if t.Bool(1, 2) {
+		switch t.Pick(3, 3, 2) {
+		case 0:
 			pe.Str, pe.Type = seedExprs[t.Draw(len(seedExprs))], model.TNodeSet
-		} else {
+		case 1:
 			pe.Str, pe.Type = model.GenExprAny(t, env)
+		default:
+			pe.Str, pe.Type = builtinExprs[t.Draw(len(builtinExprs))], model.TStr
+			// pair it with a sibling call of the same builtin and another argument
+			if i%2 == 0 && i+1 < np {
+				k := t.Draw(len(builtinExprs)/2) * 2
+				pe.Str = builtinExprs[k]
+			} else if i > 0 {
+				for k, b := range builtinExprs {
+					if b == pool[i-1].Str && k%2 == 0 {
+						pe.Str = builtinExprs[k+1]
+					}
+				}
+			}
 		}
 		g, gerr := xsel.BuildExpr(pe.Str)
 		if gerr != nil {
 			pe.err = gerr
 		} else {
 			pe.g = &g
-			pe.dump = world.DumpGrammar(pe.g)
+			// The shared object must stay COLD until the tasks start (a lazily
+			// filled memo inside it would otherwise be warmed by the harness):
+			// its baseline face is taken from a separately built twin.
+			if twin, terr := xsel.BuildExpr(pe.Str); terr == nil {
+				pe.dump = world.DumpGrammar(&twin)
+			}
 		}
 		pool = append(pool, &pe)
 		log = append(log, fmt.Sprintf("e%d = BuildExpr(%q)", i, pe.Str))
@@ -194,7 +222,13 @@ func Run(t *simkit.Tape, o *simkit.Outcome, full bool) {
 				o1.ctx.Idx = t.Draw(len(w.Docs[d].Snap.Cursors))
 			}
 			o1.pool = t.Draw(len(pool))
-			switch t.Pick(8, 1, 1, 1) {
+			switch t.Pick(8, 1, 1, 1, 2) {
+			case 4:
+				// what every CLI worker does first: parse a document (concurrently with
+				// other workers parsing and querying)
+				o1.kind = "parse"
+				o1.parse = world.GenDocSpec(t)
+				o1.desc = fmt.Sprintf("Read%s(%d bytes)", o1.parse.Kind, len(o1.parse.Bytes))
 			case 0:
 				o1.kind = "exec"
 				o1.own = t.Bool(1, 2)
@@ -238,6 +272,12 @@ func Run(t *simkit.Tape, o *simkit.Outcome, full bool) {
 					x.wantF = true
 				} else {
 					x.wantS = world.DumpGrammar(&g)
+				}
+			case "parse":
+				if d, perr := world.ParseDoc(x.parse); perr != nil {
+					x.wantF = true
+				} else {
+					x.wantS = d.Base
 				}
 			}
 			o.Evals++
@@ -290,6 +330,15 @@ func Run(t *simkit.Tape, o *simkit.Outcome, full bool) {
 							x.gotF = true
 						} else {
 							x.gotS = world.DumpGrammar(&g)
+						}
+					case "parse":
+						if d, perr := world.ParseDoc(x.parse); perr != nil {
+							x.gotF = true
+						} else {
+							x.gotS = d.Base
+							if len(d.Snap.Problems) > 0 {
+								x.gotS += "\nSTRUCTURE: " + d.Snap.Problems[0].Detail
+							}
 						}
 					}
 				}()
